@@ -392,6 +392,9 @@ CORPUS_TEXT = [
     "#2020-01-01T10:00:00.123456#", "#2020-01-01T10:00:00+02:00#", "#2020#", "1==1", "{1<2}", "{#2020# == #2020#}", "{3!}", "3! m",
     "2^-1074", "2^-1060 * 3", "1.7976931348623157e308", "-1e22*1.5", "999999.5", "9.9999995", "2.5e-5", "0.5", "100000.5",
     "1 kg^-1", "1 m^-1 s", "(1 kg)^-2 * (1 cd)", "1 mol * 1 A", "{1 m / 1 m}", "{2.5 m / 1 m, 1}", "1e-5 m", "1.5e20 s",
+    # results that are still LAZY when they reach the interpreter (n!, C(n,k), their products and quotients): what is handed
+    # on for re-entry must be the number, not the lazy object
+    "5!", "20!", "C(10,3)", "10!/8!", "3*C(4,2)", "5!/7!", "x = 6!", "0!", "C(5,0)", "25!/23!/7", "-(4!)", "2*3!/9", "170!", "C(40,20)/3!",
     "(1/3) m^-2", "{1e22*1.5}", "(1/2) km", "(15/18) minute", "{(1/2) km}", "(3/2) hour", "2.5 km", "(1/3) km", "3 m * (1/3)", "0.1 m * 3", "{\"a\", #2020#, [0.1, 0.7], {1/2 s}}",
 ]
 
